@@ -70,6 +70,17 @@ Spec == Init /\ [][Next]_vars
 InvServe == ~st.fin => ServeAsUnlimited(cfg, st)
 InvBound == ~st.fin => Bound(cfg, st)
 InvAccounting == Accounting(cfg, st)
+(* the inductive invariant of the set-based abstraction spec/apalache/OutBufInd.tla (proved  *)
+(* there for arbitrary integer times with Apalache) holds in every state of this model under *)
+(* the projection full/kept = sets of times, last = last requests (None = never)             *)
+AbsFull == {st.full[i].t : i \in 1..Len(st.full)}
+AbsKept == {st.pubs[i].t : i \in 1..Len(st.pubs)}
+InvAbsInd == (~st.fin /\ ~cfg.static) =>
+  /\ AbsKept \subseteq AbsFull
+  /\ \A a \in AbsFull, b \in AbsKept : a >= b => a \in AbsKept
+  /\ (AbsFull # {} => AbsKept # {})
+  /\ ((\E k \in Targets(cfg) : st.last[k] = None) => AbsKept = AbsFull)
+  /\ \A k \in Targets(cfg) : st.last[k] # None => \E a \in AbsKept : a <= st.last[k]
 (* a refused request changes nothing; a served one never returns nothing *)
 InvGetTotal == ~st.fin =>
   \A k \in Targets(cfg) : \A t \in ReqTimes(k) :
